@@ -278,6 +278,139 @@ fn bounds(ch: &mut Choices, case: &mut Case) -> Result<(), String> {
     Ok(())
 }
 
+/// Zone contexts at the ends of what `DateTime` can represent, and far outside the supported range: the local
+/// time of such an instant may not be representable at all, whatever the library substitutes for it must still
+/// be "before 1900" / "after 9999". Decided inside the library's own answers: every instant before 1900 lies in
+/// the same closed stretch, so next_change and the intervals that follow are the same from all of them.
+fn zone_extremes(ch: &mut Choices, case: &mut Case) -> Result<(), String> {
+    use chrono::{DateTime, TimeZone, Utc};
+    use chrono_tz::Tz;
+    use opening_hours::localization::TzLocation;
+    const ZONES: &[&str] = &[
+        "America/New_York", "Europe/Paris", "Pacific/Kiritimati", "Pacific/Pago_Pago", "UTC", "Asia/Kolkata", "Asia/Kathmandu",
+        "America/St_Johns", "Pacific/Apia", "Africa/Monrovia", "Etc/GMT+12", "Etc/GMT-14", "Australia/Lord_Howe", "Europe/London",
+        "Asia/Tokyo", "America/Los_Angeles", "Asia/Manila", "America/Juneau",
+    ];
+    let zone = |ch: &mut Choices| -> Tz {
+        if ch.chance(75) {
+            ch.pick(ZONES).parse().unwrap()
+        } else {
+            chrono_tz::TZ_VARIANTS[ch.draw(chrono_tz::TZ_VARIANTS.len() as u32) as usize]
+        }
+    };
+    let low = ch.chance(50);
+    let base_year = if low { 1900 } else { 9992 };
+    let cfg = Cfg { max_rules: 3, base_year, wide_years: ch.chance(30), dense: ch.chance(40), max_day_offset: 20, ..Cfg::default() };
+    let g = gen_case(ch, &cfg)?;
+    label_expr(&g.ast, case);
+    let tz = zone(ch);
+    let in_tz = zone(ch);
+    let text = format!("{} @ {}", g.text, tz.name());
+    let oh = g.oh.clone().with_context(
+        opening_hours::Context::default().with_holidays(g.holidays.holidays.clone()).with_locale(TzLocation::new(tz)),
+    );
+    let utc = |y: i32, m: u32, d: u32| Utc.with_ymd_and_hms(y, m, d, 0, 0, 0).unwrap();
+    let cap = Some(60_000);
+    let list = |from: DateTime<Tz>, to: DateTime<Tz>| {
+        capped(cap, || {
+            oh.iter_range(from, to).take(300).map(|i| (i.range.start.with_timezone(&Utc), i.range.end.with_timezone(&Utc), i.kind, i.comments)).collect::<Vec<_>>()
+        })
+    };
+    let mut nontrivial = false;
+    for _ in 0..3 {
+        let (t_utc, what): (DateTime<Utc>, &str) = match (low, ch.draw(5)) {
+            (true, 0) => (DateTime::<Utc>::MIN_UTC, "at_the_first_representable_instant"),
+            (true, 1 | 2) => (DateTime::<Utc>::MIN_UTC + Duration::minutes(ch.int(0, 16 * 60)), "within_16_hours_of_the_first_representable_instant"),
+            (true, 3) => (utc(ch.pick(&[-262_000, -100_000, -1, 0, 1, 1000, 1800]), 1 + ch.draw(12), 1 + ch.draw(28)) + Duration::seconds(ch.int(0, 86_399)), "far_before_1900"),
+            (true, _) => (utc(1899, 12, 1) + Duration::seconds(ch.int(0, 28 * 86_400)), "december_1899"),
+            (false, 0) => (DateTime::<Utc>::MAX_UTC, "at_the_last_representable_instant"),
+            (false, 1 | 2) => (DateTime::<Utc>::MAX_UTC - Duration::minutes(ch.int(0, 16 * 60)), "within_16_hours_of_the_last_representable_instant"),
+            (false, 3) => (utc(ch.pick(&[10_001, 20_000, 100_000, 262_000]), 1 + ch.draw(12), 1 + ch.draw(28)) + Duration::seconds(ch.int(0, 86_399)), "far_after_9999"),
+            (false, _) => (utc(10_000, 1, 2) + Duration::seconds(ch.int(0, 28 * 86_400)), "january_10000"),
+        };
+        let t = t_utc.with_timezone(&in_tz);
+        let at = format!("{} UTC given in {}", t_utc.naive_utc(), in_tz.name());
+        case.key = format!("{text}  t={at}");
+        case.units += 1;
+        case.label(what);
+        let st = guard(|| (oh.state(t), oh.is_closed(t))).map_err(|p| format!("`{text}`: state({at}) panicked: {p}"))?;
+        if st != (RuleKind::Closed, true) {
+            return Err(format!("`{text}`: (state, is_closed)({at}) = {st:?} outside the supported range"));
+        }
+        if low {
+            // reference: an ordinary instant that is before 1900 in every zone
+            let r = utc(1899, 12, 29).with_timezone(&tz);
+            let (got, exp) = match (
+                capped(cap, || oh.next_change(t)).map_err(|p| format!("`{text}`: next_change({at}) panicked: {p}"))?,
+                capped(cap, || oh.next_change(r)).map_err(|p| format!("`{text}`: next_change(1899-12-29 UTC) panicked: {p}"))?,
+            ) {
+                (Capped::Done(a), Capped::Done(b)) => (a, b),
+                _ => {
+                    case.exclude("too_far:next_change-exceeds-work-cap");
+                    continue;
+                }
+            };
+            if got.map(|x| x.with_timezone(&Utc)) != exp.map(|x| x.with_timezone(&Utc)) {
+                return Err(format!("`{text}`: next_change({at}) = {got:?}, but from 1899-12-29T00:00 UTC (everything before 1900 is closed) it is {exp:?}"));
+            }
+            let to = utc(1900, 1, 1).with_timezone(&tz) + Duration::minutes(ch.int(0, 90 * 1440));
+            let (a, b) = match (
+                list(t, to).map_err(|p| format!("`{text}`: iter_range({at}, {to}) panicked: {p}"))?,
+                list(r, to).map_err(|p| format!("`{text}`: iter_range(1899-12-29 UTC, {to}) panicked: {p}"))?,
+            ) {
+                (Capped::Done(a), Capped::Done(b)) => (a, b),
+                _ => {
+                    case.exclude("too_far:iter_range-exceeds-work-cap");
+                    continue;
+                }
+            };
+            // (where the local time of `from` cannot be represented the library starts the stream at the first
+            // representable local time, up to the zone's offset after `from`: inside the window, not asserted equal)
+            let first_ok = a.first().is_some_and(|f| f.0 >= t_utc && f.0 <= t_utc + Duration::hours(16) && f.2 == RuleKind::Closed && f.3.is_empty() && Some(f.1) == b.first().map(|x| x.1));
+            if !first_ok || a.len() != b.len() || a[1..] != b[1..] {
+                return Err(format!(
+                    "`{text}`: iter_range({at}, {to}) = {:?} ...; from 1899-12-29T00:00 UTC the stream is {:?} ...: the first interval must start at `from` (or within the zone offset after it), be closed without comments and end where the reference's first interval ends, the rest must be identical ({} vs {} intervals)",
+                    &a[..a.len().min(3)], &b[..b.len().min(3)], a.len(), b.len()
+                ));
+            }
+            nontrivial |= a.len() > 1 && what != "december_1899";
+        } else {
+            match capped(cap, || oh.next_change(t)).map_err(|p| format!("`{text}`: next_change({at}) panicked: {p}"))? {
+                Capped::Done(None) => {}
+                Capped::Done(Some(x)) => return Err(format!("`{text}`: next_change({at}) = {x:?} from an instant beyond the supported range")),
+                Capped::TooFar => return Err(format!("`{text}`: next_change({at}) evaluates more than 60 000 day schedules from an instant beyond the supported range")),
+            }
+            match capped(cap, || oh.iter_from(t).next().map(|i| (i.range, i.kind))).map_err(|p| format!("`{text}`: iter_from({at}) panicked: {p}"))? {
+                Capped::Done(None) => {}
+                Capped::Done(Some(i)) => return Err(format!("`{text}`: iter_from({at}) yields {i:?} although `from` lies beyond the supported range")),
+                Capped::TooFar => return Err(format!("`{text}`: iter_from({at}) evaluates more than 60 000 day schedules from an instant beyond the supported range")),
+            }
+            // a window ending out there is cut at 10000-01-01 exactly like a window ending a few days after it
+            let from = utc(9999, 12, 1).with_timezone(&tz) + Duration::minutes(ch.int(0, 30 * 1440));
+            let r = utc(10_000, 1, 5).with_timezone(&tz);
+            let (a, b) = match (
+                list(from, t).map_err(|p| format!("`{text}`: iter_range({from}, {at}) panicked: {p}"))?,
+                list(from, r).map_err(|p| format!("`{text}`: iter_range({from}, 10000-01-05 UTC) panicked: {p}"))?,
+            ) {
+                (Capped::Done(a), Capped::Done(b)) => (a, b),
+                _ => {
+                    case.exclude("too_far:iter_range-exceeds-work-cap");
+                    continue;
+                }
+            };
+            if a != b {
+                return Err(format!(
+                    "`{text}`: iter_range({from}, {at}) differs from iter_range({from}, 10000-01-05 UTC) although nothing is reported beyond 10000-01-01: {} vs {} intervals, last {:?} vs {:?}",
+                    a.len(), b.len(), a.last(), b.last()
+                ));
+            }
+            nontrivial |= a.len() > 1 && what != "january_10000";
+        }
+    }
+    case.nontrivial = nontrivial;
+    Ok(())
+}
+
 pub fn property() -> Property {
     Property {
         id: "C08",
@@ -288,6 +421,15 @@ pub fn property() -> Property {
             text_f: None,
             cases_quick: 8_000,
             cases_thorough: 400_000,
+            max_choices: 380,
+        },
+        SubCheck {
+            name: "zone_extremes",
+            rule: "generated expressions with years next to 1900 or 9999 evaluated in a time-zone context (18 zones with extreme / odd offsets, or any chrono-tz zone) at instants given in a second zone: the first / last representable instant and up to 16 h inside (where the local time of the context may not be representable), years -262000..262000, December 1899 / January 10000: state closed; from before 1900, next_change and the intervals of iter_range up to a drawn end in early 1900 equal those obtained from 1899-12-29T00:00 UTC (first interval: starts at `from` or, where its local time is not representable, within 16 h after it; closed, no comments, same end); beyond 9999: next_change none, iter_from yields nothing, and a window from December 9999 ending there equals the window ending on 10000-01-05; non-trivial = the compared stream has more than one interval and the instant is far outside or at the representable extremes",
+            f: zone_extremes,
+            text_f: None,
+            cases_quick: 6_000,
+            cases_thorough: 200_000,
             max_choices: 380,
         }],
         extra: None,
